@@ -1,7 +1,10 @@
 (* Property C02 — Filter keeps exactly the rows satisfying the clause, in frame order.
-   Only statements here; proofs are in Proofs/FilterProofs.v and Proofs/FilterLeafProofs.v. *)
+   Only statements here; proofs are in Proofs/FilterProofs.v, Proofs/FilterLeafProofs.v and Proofs/FilterTyped*.v. *)
 From QF Require Import Base.Prelude Base.KernelSyntax Gen.GenTables Gen.GenKernels.
 From QF Require Import Model.Frame Model.Kernel Model.Filter Model.FilterSpec Proofs.FilterProofs Proofs.FilterLeafProofs.
+From QF Require Import Proofs.FilterTyped Proofs.FilterTypedInt Proofs.FilterTypedFloatBool Proofs.FilterTypedStr
+                       Proofs.FilterTypedEnum Proofs.FilterTypedCustom Proofs.FilterTypedLeaf Proofs.FilterTypedFrame
+                       Proofs.FilterTypedCorollaries Proofs.FilterTypedTotal Proofs.FilterTypedEmpty.
 Local Open Scope nat_scope.
 
 (* 1. Every admissible clause tree (arbitrary And/Or/Not/Null nesting, Or with batches of consecutive leaves
@@ -81,3 +84,328 @@ Example C02_premises_satisfiable :
   /\ clause_filter [] ex_clause ex_frame = Ok (with_ix ex_frame [4; 5; 2; 1]).
 Proof. exact ex_premises. Qed.
 Print Assumptions C02_premises_satisfiable.
+
+(* ======================================================================================================
+   WAVE 2: the typed meaning of the leaves and the link to the row-wise specification Model/FilterSpec.v.
+   Everything below runs the GENERATED kernels (Gen/GenKernels.v) through the GENERATED tables
+   (Gen/GenTables.v); a change of a kernel, of a table entry or of filter.Inverse in the Go source makes
+   the proof of one of these theorems fail at the next regeneration.
+   ====================================================================================================== *)
+
+(* 7. Column.Filter is LOCAL: its effect on a mask over an index is the OR of its effects on the single rows
+      (for every column type, comparator, argument; uses obligation 4 "no kernel clears"). *)
+Theorem C02_column_filter_local mt c cmp a i b (s : nat -> bool) p0 v0 :
+  col_filter mt c [p0] cmp a [false] = Ok [v0] ->
+  length i = length b ->
+  (forall p, In p i -> col_filter mt c [p] cmp a [false] = Ok [s p]) ->
+  col_filter mt c i cmp a b = Ok (mask_or b (map s i)).
+Proof. exact (col_filter_local mt c cmp a i b s p0 v0). Qed.
+Print Assumptions C02_column_filter_local.
+
+(* 8. THE ROW STATEMENTS, one per column type.  [colrow_ok mt f c cmp arg p] says: where FilterSpec determines
+      the answer v for row p, Column.Filter on that row writes exactly v; where FilterSpec calls the leaf invalid,
+      Column.Filter (or the argument look-up) returns an error for every index and mask.
+      Each covers EVERY comparator name (the 14 known ones and any other string) x EVERY argument kind
+      (int, float, bool, string, []int, []float64, []string, []interface{}, column name, nil, other). *)
+Theorem C02_row_int mt f d s arg p :
+  p < length d -> arg_row_ok f arg p -> colrow_ok mt f (ICol d) (CmpName s) arg p.
+Proof. exact (colrow_int mt f d s arg p). Qed.
+Print Assumptions C02_row_int.
+
+(* float: NaN cells make every comparison false except != ; a NaN constant is an error; isnull = IsNaN;
+   int argument columns are promoted with float64(int) *)
+Theorem C02_row_float mt f d s arg p :
+  p < length d -> arg_row_ok f arg p -> colrow_ok mt f (FCol d) (CmpName s) arg p.
+Proof. exact (colrow_float mt f d s arg p). Qed.
+Print Assumptions C02_row_float.
+
+Theorem C02_row_bool mt f d s arg p :
+  p < length d -> arg_row_ok f arg p -> colrow_ok mt f (BCol d) (CmpName s) arg p.
+Proof. exact (colrow_bool mt f d s arg p). Qed.
+Print Assumptions C02_row_bool.
+
+(* string: null cells make every comparison false except != ; in / like / ilike never match null;
+   like / ilike through the matcher table, a pattern that does not compile is an error *)
+Theorem C02_row_string mt f d s arg p :
+  p < length d -> arg_row_ok f arg p -> colrow_ok mt f (SCol d) (CmpName s) arg p.
+Proof. exact (colrow_str mt f d s arg p). Qed.
+Print Assumptions C02_row_string.
+
+(* enum: comparison by rank (= position of the value in the type), null rows as for strings; a constant
+   outside the type is an error for strict types and otherwise "= nothing, != everything"; in / like / ilike
+   through the 256 bit set; a column argument needs an equal enum type.
+   Premise col_row_ok: ranks in range, at most 255 values, values pairwise different. *)
+Theorem C02_row_enum mt f d vs st s arg p :
+  col_row_ok (ECol d vs st) p -> arg_row_ok f arg p -> colrow_ok mt f (ECol d vs st) (CmpName s) arg p.
+Proof. exact (colrow_enum mt f d vs st s arg p). Qed.
+Print Assumptions C02_row_enum.
+
+(* custom predicates func(T) bool / func(T, T) bool on all five types decide by their return value *)
+Theorem C02_row_fn1 mt f c t tbl arg p :
+  col_row_ok c p -> arg_row_ok f arg p -> colrow_ok mt f c (CmpFn1 t tbl) arg p.
+Proof. exact (colrow_fn1 mt f c t tbl arg p). Qed.
+Print Assumptions C02_row_fn1.
+
+Theorem C02_row_fn2 mt f c t tbl arg p :
+  col_row_ok c p -> arg_row_ok f arg p -> colrow_ok mt f c (CmpFn2 t tbl) arg p.
+Proof. exact (colrow_fn2 mt f c t tbl arg p). Qed.
+Print Assumptions C02_row_fn2.
+
+(* the 256 bit set of ecolumn/bitset.go filled by `for i, v := range values { if pred(v) { set(i) } }` *)
+Theorem C02_enum_bitset (pred : bytes -> bool) values :
+  length values <= 256 ->
+  length (bitset_of values pred) = 4 /\
+  forall w, Bits.bitset_isset (bitset_of values pred) w
+            = match nth_error values (N.to_nat w) with Some x => pred x | None => false end.
+Proof. exact (bitset_of_spec pred values). Qed.
+Print Assumptions C02_enum_bitset.
+
+(* the comparator names of every generated filter table are among the 14 names the specification knows
+   (a comparator added to a Go table without a meaning in FilterSpec breaks this and the row theorems) *)
+Theorem C02_tables_keys_known :
+  keys_known t_filter_inverse && keys_known t_i_filter0 && keys_known t_i_filter1 && keys_known t_i_filter2
+  && keys_known t_i_filterN && keys_known t_f_filter0 && keys_known t_f_filter1 && keys_known t_f_filter2
+  && keys_known t_b_filter1 && keys_known t_b_filter2
+  && keys_known t_s_filter0 && keys_known t_s_filter1 && keys_known t_s_filter2 && keys_known t_s_filterN
+  && keys_known t_e_filter0 && keys_known t_e_filter1 && keys_known t_e_filter2 && keys_known t_e_filterN
+  && keys_known t_e_filterLike = true.
+Proof. exact tables_keys_known. Qed.
+Print Assumptions C02_tables_keys_known.
+
+(* Go's float64 operators as the kernels use them (x > y is y < x) = the statement's comparison:
+   NaN on either side makes <, <=, >, >=, == false and != true; -0 = +0 *)
+Theorem C02_float_operators a b :
+  f_lt a b = cmp_float OLt a b /\ f_le a b = cmp_float OLe a b /\ f_lt b a = cmp_float OGt a b
+  /\ f_le b a = cmp_float OGe a b /\ f_eq a b = cmp_float OEq a b /\ negb (f_eq a b) = cmp_float ONe a b.
+Proof. exact (conj (f_lt_spec a b) (conj (f_le_spec a b) (conj (f_gt_spec a b) (conj (f_ge_spec a b) (conj (f_eq_spec a b) (f_ne_spec a b)))))). Qed.
+Print Assumptions C02_float_operators.
+
+(* 9. filter.Inverse at the level of the specification: != is the complement of =, isnull of isnotnull,
+      and "not in" is no comparator of any column type. *)
+Theorem C02_spec_ne_is_not_eq mt f c a p :
+  builtin_sat mt f c n_ne a p = do r <- builtin_sat mt f c n_eq a p; Ok (not3 r).
+Proof. exact (invspec_eq mt f c a p). Qed.
+Print Assumptions C02_spec_ne_is_not_eq.
+
+(* 10. THE LEAF THEOREMS (frame_ok = wf_frame + pairwise different enum values).
+       The per-leaf step of QFrame.filter, incl. argument column look-up, int/float promotion, Filter.Inverse
+       with its shortcut through filter.Inverse (only for =, in, isnull, isnotnull) and its fallback. *)
+Theorem C02_leaf_ok mt f (l : leaf) (s : nat -> bool) (i : list nat) (b : list bool) (p0 : nat) :
+  frame_ok f ->
+  (forall p, p = p0 \/ In p i -> p < phys_len f /\ leaf_sat mt f l p = Ok (Some (Some (s p)))) ->
+  length i = length b ->
+  filter_leaf mt (with_ix f i) l b = Ok (mask_or b (map s i)).
+Proof. intro Hok. exact (leaf_ok mt f Hok l s i b p0). Qed.
+Print Assumptions C02_leaf_ok.
+
+(* ... and an error exactly when the specification says invalid (leaf_in_scope: the comparator is not the
+   string "not in", which Filter accepts in inverted leaves although no column implements it) *)
+Theorem C02_leaf_err mt f (l : leaf) (i : list nat) (b : list bool) (p0 : nat) :
+  frame_ok f -> p0 < phys_len f -> leaf_sat mt f l p0 = Ok None -> leaf_in_scope l ->
+  filter_leaf mt (with_ix f i) l b = Fail.
+Proof. intro Hok. exact (leaf_err mt f Hok l i b p0). Qed.
+Print Assumptions C02_leaf_err.
+
+(* the specification never faults on a well-formed frame ... *)
+Theorem C02_spec_total mt f l p :
+  frame_ok f -> p < phys_len f -> exists r, leaf_sat mt f l p = Ok r.
+Proof. exact (leaf_sat_total mt f l p). Qed.
+Print Assumptions C02_spec_total.
+
+(* ... so "closed" only excludes rows the specification leaves open *)
+Theorem C02_closed_iff_not_open mt f l :
+  frame_ok f ->
+  (leaf_closed mt f l <-> forall p, In p (ix f) -> leaf_sat mt f l p <> Ok (Some None)).
+Proof. exact (leaf_closed_iff_not_open mt f l). Qed.
+Print Assumptions C02_closed_iff_not_open.
+
+(* 11. THE FRAME THEOREM.  c02_premises_b is an executable check: wf_frame, pairwise different enum values,
+       no Err, duplicate-free row index, every leaf of the clause answered (valid or invalid, not open) by the
+       specification on every row, no comparator "not in".  Then QFrame.Filter returns exactly the rows the
+       specification names — once each, in frame order, columns untouched (with_ix) — or sets Err exactly when
+       the specification rejects the clause. *)
+Definition C02_full_statement : Prop :=
+  forall mt f c,
+    c02_premises_b mt f c = true -> ix f <> [] ->
+    match filter_spec mt f c with
+    | VRows rows =>
+        frame_filter mt f c = Ok (with_ix f rows)
+        /\ rows = filter (fun p => sat_true (clause_sat mt f c p)) (ix f)
+    | VError => exists g, frame_filter mt f c = Ok g /\ ferr g = true
+    | VOpen | VFault => False
+    end.
+
+Theorem C02_filter : C02_full_statement.
+Proof. exact filter_meets_spec. Qed.
+Print Assumptions C02_filter.
+
+(* the two directions with the premises as propositions *)
+Theorem C02_filter_rows mt f c rows :
+  frame_ok f -> ferr f = false -> NoDup (ix f) -> ix f <> [] -> clause_closed mt f c ->
+  filter_spec mt f c = VRows rows ->
+  frame_filter mt f c = Ok (with_ix f rows)
+  /\ rows = filter (fun p => sat_true (clause_sat mt f c p)) (ix f).
+Proof. intros Hok Hne. exact (filter_rows mt f Hok Hne c rows). Qed.
+Print Assumptions C02_filter_rows.
+
+Theorem C02_filter_error mt f c :
+  frame_ok f -> ferr f = false -> NoDup (ix f) -> clause_closed mt f c -> clause_in_scope c ->
+  filter_spec mt f c = VError ->
+  exists g, frame_filter mt f c = Ok g /\ ferr g = true.
+Proof. intros Hok Hne. exact (filter_error mt f Hok Hne c). Qed.
+Print Assumptions C02_filter_error.
+
+(* frames without rows (where the specification has no row to judge the clause on): whatever the clause,
+   Filter returns the frame itself or the frame with Err set.  The third alternative, a fault of the MODEL, can
+   only come from the case oracles (a like-matcher the case did not record). *)
+Theorem C02_filter_empty mt f c :
+  ferr f = false -> ix f = [] ->
+  frame_filter mt f c = Ok f \/ frame_filter mt f c = Ok (with_err f) \/ frame_filter mt f c = Panic.
+Proof. intros Hne Hix. exact (filter_empty mt f Hne Hix c). Qed.
+Print Assumptions C02_filter_empty.
+
+(* 12. COROLLARIES: the outcome depends only on the row-wise meaning of the clause. *)
+Theorem C02_same_spec mt f c1 c2 :
+  c02_premises_b mt f c1 = true -> c02_premises_b mt f c2 = true -> ix f <> [] ->
+  (forall p, In p (ix f) -> clause_sat mt f c1 p = clause_sat mt f c2 p) ->
+  same_outcome (frame_filter mt f c1) (frame_filter mt f c2).
+Proof. exact (same_spec mt f c1 c2). Qed.
+Print Assumptions C02_same_spec.
+
+Theorem C02_not_not mt f c :
+  ix f <> [] -> c02_premises_b mt f c = true ->
+  same_outcome (frame_filter mt f (CNot (CNot c))) (frame_filter mt f c).
+Proof. intro Hne. exact (filter_not_not mt f Hne c). Qed.
+Print Assumptions C02_not_not.
+
+Theorem C02_de_morgan_and mt f cs :
+  ix f <> [] -> c02_premises_b mt f (CAnd cs) = true ->
+  same_outcome (frame_filter mt f (CNot (CAnd cs))) (frame_filter mt f (COr (map CNot cs))).
+Proof. intro Hne. exact (filter_de_morgan_and mt f Hne cs). Qed.
+Print Assumptions C02_de_morgan_and.
+
+Theorem C02_de_morgan_or mt f cs :
+  ix f <> [] -> c02_premises_b mt f (COr cs) = true ->
+  same_outcome (frame_filter mt f (CNot (COr cs))) (frame_filter mt f (CAnd (map CNot cs))).
+Proof. intro Hne. exact (filter_de_morgan_or mt f Hne cs). Qed.
+Print Assumptions C02_de_morgan_or.
+
+Theorem C02_inverse_is_not mt f l :
+  ix f <> [] -> c02_premises_b mt f (CLeaf l) = true ->
+  same_outcome (frame_filter mt f (CLeaf (invert_leaf l))) (frame_filter mt f (CNot (CLeaf l))).
+Proof. intro Hne. exact (filter_inverse_is_not mt f Hne l). Qed.
+Print Assumptions C02_inverse_is_not.
+
+Theorem C02_and_nesting mt f xs ys :
+  ix f <> [] -> xs <> [] -> c02_premises_b mt f (CAnd (xs ++ ys)) = true ->
+  same_outcome (frame_filter mt f (CAnd (CAnd xs :: ys))) (frame_filter mt f (CAnd (xs ++ ys))).
+Proof. intro Hne. exact (filter_and_flatten mt f Hne xs ys). Qed.
+Print Assumptions C02_and_nesting.
+
+Theorem C02_or_nesting mt f xs ys :
+  ix f <> [] -> xs <> [] -> c02_premises_b mt f (COr (xs ++ ys)) = true ->
+  same_outcome (frame_filter mt f (COr (COr xs :: ys))) (frame_filter mt f (COr (xs ++ ys))).
+Proof. intro Hne. exact (filter_or_flatten mt f Hne xs ys). Qed.
+Print Assumptions C02_or_nesting.
+
+Theorem C02_and_order mt f xs ys :
+  ix f <> [] -> Permutation xs ys -> c02_premises_b mt f (CAnd xs) = true ->
+  same_outcome (frame_filter mt f (CAnd xs)) (frame_filter mt f (CAnd ys)).
+Proof. intro Hne. exact (filter_and_perm mt f Hne xs ys). Qed.
+Print Assumptions C02_and_order.
+
+Theorem C02_or_order mt f xs ys :
+  ix f <> [] -> Permutation xs ys -> c02_premises_b mt f (COr xs) = true ->
+  same_outcome (frame_filter mt f (COr xs)) (frame_filter mt f (COr ys)).
+Proof. intro Hne. exact (filter_or_perm mt f Hne xs ys). Qed.
+Print Assumptions C02_or_order.
+
+(* 13. Non-vacuity: a frame with all five column types (NaN, null string, null enum), a row index that is
+       neither sorted nor complete, a like-matcher table, and a nested clause with inverted leaves, a column
+       argument, a value set, a custom predicate, like on an enum column: the premises hold, the specification
+       names 4 of the 5 rows and the model returns them.  A second clause (bool column with "<") is rejected. *)
+Local Open Scope N_scope.
+Definition nA : bytes := [65]. Definition nF : bytes := [70]. Definition nB : bytes := [66].
+Definition nS : bytes := [83]. Definition nE : bytes := [69]. Definition nG : bytes := [71].
+Definition ex5_frame : frame :=
+  mkFrame [ (nA, ICol [3; 1; 2; 5; 4; 7]%Z);
+            (nF, FCol [0x3FF0000000000000; f_nan; 0x4004000000000000; 0xBFF0000000000000; 0; 0x4004000000000000]);
+            (nB, BCol [true; false; true; true; false; false]);
+            (nS, SCol [Some [97]; None; Some [98; 99]; Some [120]; Some []; Some [97]]);
+            (nE, ECol [0; 2; 255; 1; 1; 0] [[97]; [98]; [99]] false);
+            (nG, ICol [3; 0; 2; 6; 4; 1]%Z) ]
+          [4; 0; 5; 2; 1]%nat false.
+(* the matcher for pattern "a", case sensitive, with its answers for the strings of the frame *)
+Definition ex5_mt : matcher_table :=
+  [ (([97], true), Some [([97], true); ([98], false); ([99], false); ([98; 99], false); ([120], false); ([], false)]) ].
+Definition lf col cmp arg inv := CLeaf (mkLeaf col (CmpName cmp) arg inv).
+Definition ex5_clause : clause :=
+  COr [ lf nA (bs 1 0x3c) (AInt 2) false;
+        CAnd [ lf nE (bs 1 0x3d) (AStr [98]) true; lf nE (bs 1 0x3c) (AStr [99]) false ];
+        CNot (CAnd [ lf nF (bs 2 0x3e3d) (AFloat 0x3FF0000000000000 1) false;
+                     lf nS (bs 2 0x213d) (AStr [120]) false;
+                     CNot (lf nA (bs 1 0x3e) (AColName nG) false) ]);
+        CAnd [ lf nB (bs 1 0x3d) (ABool true) false;
+               lf nS (bs 2 0x696e) (AStrs [[97]; [98; 99]]) true;
+               CLeaf (mkLeaf nF (CmpFn1 TFloat [(CFloat 0, true); (CFloat f_nan, false); (CFloat 0x3FF0000000000000, false);
+                                                (CFloat 0x4004000000000000, true); (CFloat 0xBFF0000000000000, false)]) ANil false) ];
+        CAnd [ lf nE (bs 9 0x69736e6f746e756c6c) ANil true; lf nA (bs 8 0x616c6c5f62697473) (AInt 8) false ];
+        CAnd [ lf nE (bs 4 0x6c696b65) (AStr [97]) false; lf nS (bs 4 0x6c696b65) (AStr [97]) true ] ].
+Definition ex5_bad : clause :=
+  CAnd [ lf nA (bs 1 0x3c) (AInt 2) false; COr [ lf nB (bs 1 0x3c) (ABool true) false; CNull ] ].
+
+Example C02_filter_empty_example :
+  let f0 := with_ix ex5_frame [] in
+  ferr f0 = false /\ ix f0 = [] /\ frame_filter ex5_mt f0 ex5_clause = Ok f0
+  /\ frame_filter ex5_mt f0 ex5_bad = Ok (with_err f0).
+Proof. repeat split; vm_compute; reflexivity. Qed.
+Print Assumptions C02_filter_empty_example.
+
+Example C02_filter_premises_satisfiable :
+  c02_premises_b ex5_mt ex5_frame ex5_clause = true /\ ix ex5_frame <> []
+  /\ filter_spec ex5_mt ex5_frame ex5_clause = VRows [4; 0; 5; 1]%nat
+  /\ frame_filter ex5_mt ex5_frame ex5_clause = Ok (with_ix ex5_frame [4; 0; 5; 1]%nat)
+  /\ c02_premises_b ex5_mt ex5_frame ex5_bad = true
+  /\ filter_spec ex5_mt ex5_frame ex5_bad = VError.
+Proof. repeat split; try (vm_compute; reflexivity). discriminate. Qed.
+Print Assumptions C02_filter_premises_satisfiable.
+
+(* premises of the row and leaf theorems on the same frame: every column is readable at every row of the index *)
+Example C02_row_premises_satisfiable :
+  frame_ok ex5_frame
+  /\ col_row_ok (ECol [0; 2; 255; 1; 1; 0] [[97]; [98]; [99]] false) 2
+  /\ arg_row_ok ex5_frame (AColName nG) 2
+  /\ (forall p, p = 4%nat \/ In p [0; 5]%nat ->
+        (p < phys_len ex5_frame)%nat
+        /\ leaf_sat ex5_mt ex5_frame (mkLeaf nE (CmpName (bs 1 0x3d)) (AStr [98]) true) p
+           = Ok (Some (Some (negb (Nat.eqb p 4)))))
+  /\ leaf_sat ex5_mt ex5_frame (mkLeaf nB (CmpName (bs 1 0x3c)) (ABool true) false) 4 = Ok None.
+Proof.
+  split; [apply frame_ok_b; vm_compute; reflexivity|].
+  split; [split; [vm_compute; lia|split; [vm_compute; reflexivity|]];
+          apply (nodupb_ok bytes_eqb bytes_eqb_spec); vm_compute; reflexivity|].
+  split; [split; [vm_compute; lia|split; [reflexivity|exact I]]|].
+  split; [|vm_compute; reflexivity].
+  intros p [->|[<-|[<-|[]]]]; (split; [vm_compute; lia|vm_compute; reflexivity]).
+Qed.
+Print Assumptions C02_row_premises_satisfiable.
+
+(* premises of the corollaries and of the locality theorem on the same frame *)
+Definition ex5_parts : list clause :=
+  [ lf nA (bs 1 0x3c) (AInt 4) false; lf nS (bs 2 0x213d) (AStr [120]) false; lf nE (bs 4 0x6c696b65) (AStr [97]) true ].
+
+Example C02_corollary_premises_satisfiable :
+  c02_premises_b ex5_mt ex5_frame (CAnd ex5_parts) = true
+  /\ c02_premises_b ex5_mt ex5_frame (COr ex5_parts) = true
+  /\ c02_premises_b ex5_mt ex5_frame (CAnd (ex5_parts ++ [ex5_clause])) = true
+  /\ c02_premises_b ex5_mt ex5_frame (CLeaf (mkLeaf nE (CmpName (bs 1 0x3d)) (AStr [98]) false)) = true
+  /\ Permutation ex5_parts (rev ex5_parts) /\ ex5_parts <> []
+  /\ frame_filter ex5_mt ex5_frame (CNot (CAnd ex5_parts)) = Ok (with_ix ex5_frame [4; 0; 5]%nat)
+  /\ frame_filter ex5_mt ex5_frame (COr (map CNot ex5_parts)) = Ok (with_ix ex5_frame [4; 0; 5]%nat)
+  /\ col_filter ex5_mt (ICol [3; 1; 2; 5; 4; 7]%Z) [4%nat] (CmpName (bs 1 0x3c)) (RConst (AInt 5)) [false] = Ok [true]
+  /\ col_filter ex5_mt (ICol [3; 1; 2; 5; 4; 7]%Z) [5%nat] (CmpName (bs 1 0x3c)) (RConst (AInt 5)) [false] = Ok [false].
+Proof.
+  repeat split; try (vm_compute; reflexivity); try discriminate.
+  apply Permutation_rev.
+Qed.
+Print Assumptions C02_corollary_premises_satisfiable.
